@@ -132,7 +132,7 @@ impl<P: AsRef<Path>> From<P> for EntryType {
          * Match valid patch filenames.
          */
         if s.starts_with("patch-")
-            || (s.starts_with("emul-") && s.contains("-patch-"))
+            || s.strip_prefix("emul-").is_some_and(|r| r.contains("-patch-"))
         {
             /*
              * This is really janky, but we need to skip distfiles for devel/patch
